@@ -86,6 +86,15 @@ def generate(seed, stratum, tier):
     if rng.random() < 0.3:
       c.append(['await_idle'])
   c.append(['await_idle'])
+  # a second signal: an object that already subscribed to one signal subscribes to another, the same way
+  second = rng.random() < 0.5
+  if second:
+    for i in order:
+      if rng.random() < 0.7:
+        c.append(['subscribe', i, 'SE', rng.choice(['fifo', 'lifo', None]), rng.choice(['event', 'event', 'int'])])
+    c.append(['await_idle'])
+    for _ in range(rng.randrange(1, 3)):
+      c.append(['publish', rng.randrange(nobj), 'SE', rng.choice([None, 1])])
   # phase C: publications
   for _ in range(rng.randrange(1, 4)):
     x = rng.randrange(nobj)
@@ -141,12 +150,12 @@ def judge(sc, run, sim, res):
     if oi not in run.started:
       res.outcome, res.reason = 'inconclusive', 'an object was never started'
       return
-  eff = {}      # (obj, kind) -> seq from which the subscription counts
-  asked = {}    # (obj, kind) -> earliest begin
+  eff = {}      # (obj, kind, signal) -> seq from which the subscription counts
+  asked = {}    # (obj, kind, signal) -> earliest begin
   for s in run.subs:
-    if s['sig'] != 'SD':
+    if s['sig'] not in ('SD', 'SE'):
       continue
-    key = (s['obj'], s['kind'])
+    key = (s['obj'], s['kind'], s['sig'])
     asked[key] = min(asked.get(key, 10 ** 12), s['begin'])
     if s['end'] is None:
       continue
@@ -161,21 +170,21 @@ def judge(sc, run, sim, res):
     if nxt:
       eff[key] = min(eff.get(key, 10 ** 12), nxt[0])
   for uid, p in sorted(run.pubs.items()):
-    if p['sig'] != 'SD' or p['end'] is None:
+    if p['sig'] not in ('SD', 'SE') or p['end'] is None:
       continue
     for oi in range(nobj):
       got = sum(1 for d in run.dispatch if d[1] == oi and d[3] == uid)
-      need = [k for (o, k), q in eff.items() if o == oi and q < p['begin']]
-      could = [k for (o, k), b in asked.items() if o == oi]
+      need = [k for (o, k, sg), q in eff.items() if o == oi and sg == p['sig'] and q < p['begin']]
+      could = [k for (o, k, sg), b in asked.items() if o == oi and sg == p['sig']]
       if need:
         sim.probe('publication_with_effective_subscriber')
       if got < len(need):
-        sub_recs = [s for s in run.subs if s['obj'] == oi]
+        sub_recs = [s for s in run.subs if s['obj'] == oi and s['sig'] == p['sig']]
         where = sorted(set('%s%s' % (s['where'] if s['where'] == 'handler' else 'client', '-before-start' if s['before_start'] else '') for s in sub_recs))
         others = sorted(set(s['obj'] for s in run.subs if s['obj'] != oi and s['begin'] < min(s2['begin'] for s2 in sub_recs)))
-        res.violate('publication-not-received', {'spied': bool(sc['objects'][oi]['spied']), 'prior_subscribers': bool(others),
+        res.violate('publication-not-received', {'spied': bool(sc['objects'][oi]['spied']), 'prior_subscribers': bool(others), 'second_signal': p['sig'] != 'SD',
                                                  'publisher_spied': bool(sc['objects'][p['obj']]['spied'])},
-                    '%s (spied=%s) subscribed to SD as %s (%s) and was idle afterwards, then %s published %s (by %s, publisher spied=%s, priority %s): dispatched %d time(s), expected %d; objects subscribed earlier: %s' % (
+                    ('%s (spied=%s) subscribed to ' + p['sig'] + ' as %s (%s) and was idle afterwards, then %s published %s (by %s, publisher spied=%s, priority %s): dispatched %d time(s), expected %d; objects subscribed earlier: %s') % (
                       run.names[oi], sc['objects'][oi]['spied'], need, where, run.names[p['obj']], uid, p['by'], sc['objects'][p['obj']]['spied'], p['prio'],
                       got, len(need), [run.names[o] for o in others]))
         return
